@@ -106,7 +106,9 @@ CHECKS = {
               "random/damaged link frames and transport segments through the real readers; all under catch_unwind with overflow checks on. "
               "E1: the same inputs as raw bytes (random chunking) or framed fragments (incl. maximal-size control requests, foreign/broadcast addresses) injected into live outstation and master sessions prepared in 6 states x both link error modes x buffer sizes x 108 decode levels; "
               "after each input: quiescence (spin), panic hook, task alive; at the end link-status and READ probes in virtual time. distinct = (role, state, input class, error mode) and (function, length bucket) tuples"),
-        runs=[dict(check="c01", timeout_s=1200)],
+        runs=[dict(check="c01", timeout_s=1200),
+              # parsers / formatters / extraction / link + transport readers under the Miri interpreter (dependency unsafe code: xxhash)
+              dict(check="c01", flavor="miri", tier="thorough", scale=0.00003, extra=["--direct-only"], timeout_s=300)],
         required=["direct_fragments_parsed", "direct_objects_accepted", "direct_link_streams", "probe_link_status_ok", "probe_read_ok", "close_mode_session_ended_on_framing_error", "master_probe_read_ok", "master_probe_ok_chatter0", "master_probe_ok_chatter1", "master_probe_ok_chatter2", "master_probe_ok_chatter3", "master_close_mode_session_ended_on_framing_error"],
         thorough_scale=25.0,
         abnormal_exit_is_violation=True,
@@ -204,7 +206,8 @@ CHECKS = {
         rule=("library parser (first pass, iteration through its decode formatter, typed extraction) vs the harness' reference header walker, hand-written object size table and measurement decoders, on: "
               "A1 every fragment the real master writes for generated user requests (class / all-objects / 8- and 16-bit range / limited-count reads over every table variation, five command types with 8/16-bit indices, three time-sync procedures, dead-bands, restarts, empty-response functions, automatic tasks) - READ header lists compared with what was asked; "
               "A2 every response and unsolicited fragment the real outstation writes for generated databases (all types/variations, boundary values) and requests; P grammar-generated fragments x both zero-length-string options; plus 6 truncations / extensions / bit flips / octet substitutions of every captured fragment"),
-        runs=[dict(check="c09", timeout_s=900)],
+        runs=[dict(check="c09", timeout_s=900),
+              dict(check="c09", flavor="miri", tier="thorough", scale=0.0004, extra=["--direct-only"], timeout_s=300)],
         required=["A1_fragments_agree", "A1_read_request_as_asked", "A2_fragments_agree", "A2_objects_agree", "A2_measurements_agree", "P_fragments_agree", "P_objects_agree", "P_objects_rejected", "A1_mutated_objects_rejected", "A2_mutated_objects_rejected", "A2_mutated_fragments_agree"],
         thorough_scale=12.0,
         abnormal_exit_is_violation=True,
@@ -214,7 +217,10 @@ CHECKS = {
         level="exploration",
         rule=("real TCP master client and real TCP outstation server on loopback (public API only) on a multi-threaded tokio runtime in real time, joined by a byte-level proxy that re-chunks both streams (whole / bytewise / 1-7 / 1-300 octets, random pauses) and cuts the connection after a random number of further octets; two user threads update all eight point types in transactions with unique values while the master sends CROB and analog-output commands that the outstation application turns into output-status updates; "
               "unsolicited on/off, periodic polls on/off, event buffers 4 or 250 per type, minimal or default buffer sizes, both link error modes. After the stimulus stops: convergence within 40 s (last record of every point == current database value; every event not reported as overflow-discarded by update2 delivered as an event), every record ever received equals a value the point really had (ledger updated inside the same database transaction)"),
-        runs=[dict(check="c02", timeout_s=1500)],
+        runs=[dict(check="c02", timeout_s=1500),
+              # the same real-TCP workload under AddressSanitizer and ThreadSanitizer (nightly, -Zbuild-std for TSan)
+              dict(check="c02", flavor="asan", tier="thorough", scale=0.1, timeout_s=600),
+              dict(check="c02", flavor="tsan", tier="thorough", scale=0.1, timeout_s=600)],
         required=["converged", "records_match_history", "events_delivered", "events_overflow_discarded", "commands_executed", "connection_cuts", "converged_after_cuts", "converged_after_overflow"],
         thorough_scale=10.0,
         abnormal_exit_is_violation=True,
@@ -225,7 +231,9 @@ CHECKS = {
         rule=("E: every variant of every binding enumeration (enumerated through the generated From<c_int>, 0..1100) converted to the native type, and every native value (all 256 octets through the library's own from(u8) constructors for command status / function code / control code; exhaustive lists guarded by a compile-time exhaustive match for the rest) converted to the binding type: normalised Debug names equal, no two sources collapse into one target unless the target lacks the variant, identity on round trips where both directions exist; "
               "S: struct conversions with distinct sentinels in every field (all 256 flag octets, three time qualities x boundary times, update options, seven measurement structs both ways, IIN1/IIN2 all 256 octets each, event buffer sizes, restart delay, application IIN 16 combinations, class-zero fields one at a time, every static x event variation x dead-band of the seven point configurations, CROB); "
               "D: random add / remove / update2 / update_flags / get sequences applied through the crate-private binding entry points to one database and natively to another: same results, same get, same wire image"),
-        runs=[dict(check="c20", driver="driver_ffi", timeout_s=900)],
+        runs=[dict(check="c20", driver="driver_ffi", timeout_s=900),
+              # the raw-pointer entry points again under the Miri interpreter (aliasing / provenance / uninitialised reads)
+              dict(check="c20", driver="driver_ffi", flavor="miri", scale=0.08, timeout_s=900)],
         required=["variants_map_to_namesake", "round_trips_ok", "flags_ok", "timestamps_ok", "measurements_in_ok", "measurements_out_ok", "iin_ok", "differential_sequences_ok", "differential_image_octets", "conversion_Variation(in)", "conversion_CommandStatus(out)", "conversion_TaskType"],
         thorough_scale=20.0,
         abnormal_exit_is_violation=True,
